@@ -1,7 +1,7 @@
 import Reduino.Lang.Render
 import Reduino.Lang.InF
 import Reduino.Lemmas.C01d
-/- C01 helpers, part e: lock-step simulation of nested statements -/
+/- C01 helpers, part e: lock-step simulation of nested statements (W6: the frame of a call — `evalArgs_sim`, `Rel_setAll`, `funDecls_prefix`) -/
 namespace Reduino.Lemmas.C01
 open Reduino.Lang
 
@@ -40,6 +40,100 @@ theorem assign_sim {te : C.TyEnv} {stp stc : Py.St} (h : StRel te stp stc) {x : 
     left
     exact ⟨_, rfl, ⟨h.tr, h.fl, Rel_set_both h.rel v hx (typed_val te _ _ h.rel e v hwt hpy)⟩⟩
   · right; exact ub_bind _ hc
+
+/-! ### W6: the frame of a call -/
+
+/-- the arguments converted to the parameter types -/
+def convAll : List (String × Ty) → List Val → List Val
+  | p :: ps, v :: vs => C.conv p.2 v :: convAll ps vs
+  | _, _ => []
+
+/-- each argument value is one its parameter's type admits -/
+def HoldsAll : List (String × Ty) → List Val → Prop
+  | [], [] => True
+  | p :: ps, v :: vs => p.2.holds v = true ∧ HoldsAll ps vs
+  | _, _ => False
+
+theorem lookup_append_of_some' {β : Type} {l1 : List (String × β)} (l2 : List (String × β)) {k : String} {v : β}
+    (h : l1.lookup k = some v) : (l1 ++ l2).lookup k = some v := by
+  rw [List.lookup_append, h]; rfl
+
+theorem evalArgs_sim (te : C.TyEnv) (sp sc : Store) (hrel : Rel te sp sc) :
+    ∀ (ps : List (String × Ty)) (es : List Expr) (vs : List Val),
+      (∀ e ∈ es, e.wt te = true) → es.map (inferTy te) = ps.map (·.2) → Py.evalList sp es = .ok vs →
+      (C.evalArgs te sc .strict ps es = .ok (convAll ps vs) ∧ HoldsAll ps vs) ∨ UB (C.evalArgs te sc .strict ps es)
+  | [], [], vs, _, _, h => by
+    simp only [Py.evalList] at h; cases h
+    left; exact ⟨rfl, trivial⟩
+  | [], _ :: _, _, _, hty, _ => by simp at hty
+  | _ :: _, [], _, _, hty, _ => by simp at hty
+  | p :: ps, e :: es, vs, hwt, hty, h => by
+    rw [Py.evalList] at h
+    obtain ⟨v, hv, h⟩ := bind_ok h
+    obtain ⟨vs', hvs, h⟩ := bind_ok h
+    cases h
+    simp only [List.map_cons, List.cons.injEq] at hty
+    have hwe := hwt e (List.mem_cons_self ..)
+    rw [C.evalArgs]
+    rcases expr_sim te sp sc hrel e v hwe hv with hc | hc
+    · rw [hc, ok_bind]
+      rcases evalArgs_sim te sp sc hrel ps es vs' (fun e' he' => hwt e' (List.mem_cons_of_mem _ he')) hty.2 hvs with ⟨hr, hh⟩ | hr
+      · rw [hr, ok_bind]
+        left
+        refine ⟨?_, ?_, hh⟩
+        · show Except.ok _ = Except.ok _
+          rw [convAll, ← hty.1, conv_idem]
+        · rw [← hty.1]; exact typed_val te sp sc hrel e v hwe hv
+      · right; exact ub_bind _ hr
+    · right; exact ub_bind _ hc
+
+theorem Rel_setAll {te : C.TyEnv} : ∀ (ps : List (String × Ty)) (vs : List Val) (sp sc : Store), Rel te sp sc →
+    (∀ p ∈ ps, te.lookup p.1 = some p.2) → HoldsAll ps vs →
+    Rel te (sp.setAll (ps.map (·.1)) vs) (sc.setAll (ps.map (·.1)) (convAll ps vs))
+  | [], [], _, _, h, _, _ => by simpa [Store.setAll] using h
+  | [], _ :: _, _, _, _, _, hh => by cases hh
+  | _ :: _, [], _, _, _, _, hh => by cases hh
+  | p :: ps, v :: vs, sp, sc, h, hl, hh => by
+    simp only [List.map_cons, Store.setAll, convAll]
+    exact Rel_setAll ps vs _ _ (Rel_set_both h v (hl p (List.mem_cons_self ..)) hh.1)
+      (fun q hq => hl q (List.mem_cons_of_mem _ hq)) hh.2
+
+theorem funDecls_prefix (s : Stmt) : ∀ (te te' : C.TyEnv), funDecls te s = some te' → ∃ l, te' = te ++ l := by
+  induction s with
+  | seq a b iha ihb =>
+    intro te te' h
+    simp only [funDecls] at h
+    cases ha : funDecls te a with
+    | none => rw [ha] at h; cases h
+    | some te1 =>
+      rw [ha] at h
+      obtain ⟨l1, rfl⟩ := iha te te1 ha
+      obtain ⟨l2, rfl⟩ := ihb _ te' h
+      exact ⟨l1 ++ l2, by rw [List.append_assoc]⟩
+  | assign x e =>
+    intro te te' h
+    simp only [funDecls] at h
+    split at h
+    · cases h; exact ⟨[], by simp⟩
+    · cases h; exact ⟨_, rfl⟩
+  | skip => intro te te' h; simp only [funDecls] at h; cases h; exact ⟨[], by simp⟩
+  | _ =>
+    intro te te' h
+    simp only [funDecls] at h
+    split at h
+    · cases h; exact ⟨[], by simp⟩
+    · cases h
+
+theorem lookup_of_nodup {β : Type} : ∀ (l : List (String × β)), (l.map (·.1)).Nodup → ∀ p ∈ l, l.lookup p.1 = some p.2
+  | [], _, p, hp => by cases hp
+  | q :: l, hn, p, hp => by
+    simp only [List.map_cons, List.nodup_cons] at hn
+    rcases List.mem_cons.1 hp with rfl | hp
+    · exact lookup_cons_eq _ _ _
+    · have hne : p.1 ≠ q.1 := by
+        rintro he; exact hn.1 (he ▸ List.mem_map_of_mem hp)
+      rw [show (q :: l) = ((q.1, q.2) :: l) from rfl, lookup_cons_ne _ _ hne]
+      exact lookup_of_nodup l hn.2 p hp
 
 theorem sim (all : List String) (f : Nat) :
     (∀ te m d s s' stp stc stp', s.okNested all te = true → (∀ x ∈ s.assigned, x ∈ all) →
@@ -284,6 +378,161 @@ theorem sim (all : List String) (f : Nat) :
           rw [Py.exec] at hpy; cases hpy
           rw [C.exec]; left
           exact ⟨_, rfl, ⟨hst.tr, rfl, hst.rel⟩⟩
+      | call y g ps ls rt body ret args =>
+        cases ret with
+        | none =>
+          cases y with
+          | none =>
+            simp only [Stmt.okNested, Bool.and_eq_true, beq_iff_eq, List.all_eq_true] at hok
+            obtain ⟨⟨⟨hwt, hty⟩, hshape⟩, hbody⟩ := hok
+            rw [trNested, if_pos hshape] at htr
+            cases hfd : funDecls ps body with
+            | none => rw [hfd] at hbody; cases hbody
+            | some te' =>
+              rw [hfd] at htr hbody
+              simp only [Bool.and_eq_true, List.all_eq_true] at htr hbody
+              obtain ⟨⟨hbok, hball⟩, hretok⟩ := hbody
+              obtain ⟨body', hb', htr⟩ := bind_ok htr
+              split at htr
+              · cases htr
+                obtain ⟨l, hl⟩ := funDecls_prefix body ps te' hfd
+                have hte' : ps ++ te'.drop ps.length = te' := by rw [hl, List.drop_left]
+                have hnd : (ps.map (·.1)).Nodup := by
+                  simp only [funShapeOk, Bool.and_eq_true, decide_eq_true_eq] at hshape; exact hshape.2
+                have hlk : ∀ p ∈ ps, te'.lookup p.1 = some p.2 := fun p hp => by
+                  rw [hl]; exact lookup_append_of_some' l (lookup_of_nodup ps hnd p hp)
+                rw [Py.exec] at hpy
+                obtain ⟨vs, hvs, hpy⟩ := bind_ok hpy
+                split at hpy
+                · cases hpy
+                · obtain ⟨st1, h1, hpy⟩ := bind_ok hpy
+                  split at hpy
+                  · cases hpy
+                  · rename_i hnb
+                    rw [C.exec]
+                    rcases evalArgs_sim te _ _ hst.rel ps args vs hwt hty hvs with ⟨hc, hh⟩ | hc
+                    · rw [hc, ok_bind, hte']
+                      have hrel0 : StRel te' { store := Store.setAll [] (ps.map (·.1)) vs, trace := stp.trace }
+                          { store := Store.setAll [] (ps.map (·.1)) (convAll ps vs), trace := stc.trace } :=
+                        ⟨hst.tr, rfl, Rel_setAll ps vs [] [] (Rel_nil _ _) hlk hh⟩
+                      rcases ihe te' false 0 body body' _ _ st1 hbok
+                          (fun x hx => by simpa using hball x hx) hb' hrel0 h1 with ⟨stc1, hc1, hr1⟩ | hc1
+                      · rw [hc1, ok_bind, if_neg (by rw [hr1.fl]; exact hnb)]
+                        simp only [pure, Except.pure, Except.ok.injEq] at hpy
+                        subst hpy
+                        left
+                        exact ⟨_, rfl, ⟨hr1.tr, hst.fl, hst.rel⟩⟩
+                      · right; exact ub_bind _ hc1
+                    · right; exact ub_bind _ hc
+              · cases htr
+          | some y =>
+            simp only [Stmt.okNested, Bool.and_eq_true] at hok
+            obtain ⟨_, hbody⟩ := hok
+            cases hfd : funDecls ps body with
+            | none => rw [hfd] at hbody; cases hbody
+            | some te' => rw [hfd] at hbody; simp [callRetOk] at hbody
+        | some e =>
+          cases y with
+          | none =>
+            simp only [Stmt.okNested, Bool.and_eq_true, beq_iff_eq, List.all_eq_true] at hok
+            obtain ⟨⟨⟨hwt, hty⟩, hshape⟩, hbody⟩ := hok
+            rw [trNested, if_pos hshape] at htr
+            cases hfd : funDecls ps body with
+            | none => rw [hfd] at hbody; cases hbody
+            | some te' =>
+              rw [hfd] at htr hbody
+              simp only [Bool.and_eq_true, List.all_eq_true] at htr hbody
+              obtain ⟨⟨hbok, hball⟩, hretok⟩ := hbody
+              obtain ⟨body', hb', htr⟩ := bind_ok htr
+              split at htr
+              · cases htr
+                obtain ⟨l, hl⟩ := funDecls_prefix body ps te' hfd
+                have hte' : ps ++ te'.drop ps.length = te' := by rw [hl, List.drop_left]
+                have hnd : (ps.map (·.1)).Nodup := by
+                  simp only [funShapeOk, Bool.and_eq_true, decide_eq_true_eq] at hshape; exact hshape.2
+                have hlk : ∀ p ∈ ps, te'.lookup p.1 = some p.2 := fun p hp => by
+                  rw [hl]; exact lookup_append_of_some' l (lookup_of_nodup ps hnd p hp)
+                rw [Py.exec] at hpy
+                obtain ⟨vs, hvs, hpy⟩ := bind_ok hpy
+                split at hpy
+                · cases hpy
+                · obtain ⟨st1, h1, hpy⟩ := bind_ok hpy
+                  split at hpy
+                  · cases hpy
+                  · rename_i hnb
+                    rw [C.exec]
+                    rcases evalArgs_sim te _ _ hst.rel ps args vs hwt hty hvs with ⟨hc, hh⟩ | hc
+                    · rw [hc, ok_bind, hte']
+                      have hrel0 : StRel te' { store := Store.setAll [] (ps.map (·.1)) vs, trace := stp.trace }
+                          { store := Store.setAll [] (ps.map (·.1)) (convAll ps vs), trace := stc.trace } :=
+                        ⟨hst.tr, rfl, Rel_setAll ps vs [] [] (Rel_nil _ _) hlk hh⟩
+                      rcases ihe te' false 0 body body' _ _ st1 hbok
+                          (fun x hx => by simpa using hball x hx) hb' hrel0 h1 with ⟨stc1, hc1, hr1⟩ | hc1
+                      · rw [hc1, ok_bind, if_neg (by rw [hr1.fl]; exact hnb)]
+                        simp only [callRetOk] at hretok
+                        dsimp only at hpy ⊢
+                        obtain ⟨v, hv, hpy⟩ := bind_ok hpy
+                        cases hpy
+                        rcases expr_sim te' _ _ hr1.rel e v hretok hv with hce | hce
+                        · rw [hce, ok_bind]
+                          left
+                          exact ⟨_, rfl, ⟨hr1.tr, hst.fl, hst.rel⟩⟩
+                        · right; exact ub_bind _ hce
+                      · right; exact ub_bind _ hc1
+                    · right; exact ub_bind _ hc
+              · cases htr
+          | some y =>
+            simp only [Stmt.okNested, Bool.and_eq_true, beq_iff_eq, List.all_eq_true] at hok
+            obtain ⟨⟨⟨hwt, hty⟩, hshape⟩, hbody⟩ := hok
+            rw [trNested, if_pos hshape] at htr
+            cases hfd : funDecls ps body with
+            | none => rw [hfd] at hbody; cases hbody
+            | some te' =>
+              rw [hfd] at htr hbody
+              simp only [Bool.and_eq_true, List.all_eq_true] at htr hbody
+              obtain ⟨⟨hbok, hball⟩, hretok⟩ := hbody
+              obtain ⟨body', hb', htr⟩ := bind_ok htr
+              split at htr
+              · cases htr
+                obtain ⟨l, hl⟩ := funDecls_prefix body ps te' hfd
+                have hte' : ps ++ te'.drop ps.length = te' := by rw [hl, List.drop_left]
+                have hnd : (ps.map (·.1)).Nodup := by
+                  simp only [funShapeOk, Bool.and_eq_true, decide_eq_true_eq] at hshape; exact hshape.2
+                have hlk : ∀ p ∈ ps, te'.lookup p.1 = some p.2 := fun p hp => by
+                  rw [hl]; exact lookup_append_of_some' l (lookup_of_nodup ps hnd p hp)
+                rw [Py.exec] at hpy
+                obtain ⟨vs, hvs, hpy⟩ := bind_ok hpy
+                split at hpy
+                · cases hpy
+                · obtain ⟨st1, h1, hpy⟩ := bind_ok hpy
+                  split at hpy
+                  · cases hpy
+                  · rename_i hnb
+                    rw [C.exec]
+                    rcases evalArgs_sim te _ _ hst.rel ps args vs hwt hty hvs with ⟨hc, hh⟩ | hc
+                    · rw [hc, ok_bind, hte']
+                      have hrel0 : StRel te' { store := Store.setAll [] (ps.map (·.1)) vs, trace := stp.trace }
+                          { store := Store.setAll [] (ps.map (·.1)) (convAll ps vs), trace := stc.trace } :=
+                        ⟨hst.tr, rfl, Rel_setAll ps vs [] [] (Rel_nil _ _) hlk hh⟩
+                      rcases ihe te' false 0 body body' _ _ st1 hbok
+                          (fun x hx => by simpa using hball x hx) hb' hrel0 h1 with ⟨stc1, hc1, hr1⟩ | hc1
+                      · rw [hc1, ok_bind, if_neg (by rw [hr1.fl]; exact hnb)]
+                        simp only [callRetOk, Bool.and_eq_true, beq_iff_eq] at hretok
+                        dsimp only at hpy ⊢
+                        obtain ⟨v, hv, hpy⟩ := bind_ok hpy
+                        cases hpy
+                        rcases expr_sim te' _ _ hr1.rel e v hretok.1 hv with hce | hce
+                        · rw [hce, ok_bind]
+                          have hasg : C.assignTo te stc.store y (C.conv (retTy te' (some e)) (C.conv (inferTy te' e) v))
+                              = .ok (stc.store.set y (C.conv (inferTy te' e) v)) := by
+                            unfold C.assignTo; rw [hretok.2]; dsimp only [retTy]; rw [conv_idem, conv_idem]
+                          rw [hasg, ok_bind]
+                          left
+                          exact ⟨_, rfl, ⟨hr1.tr, hst.fl, Rel_set_both hst.rel v hretok.2 (typed_val te' _ _ hr1.rel e v hretok.1 hv)⟩⟩
+                        · right; exact ub_bind _ hce
+                      · right; exact ub_bind _ hc1
+                    · right; exact ub_bind _ hc
+              · cases htr
     · intro te m d i n b b' stp stc stp' nvI k hnwt hiall hi hnv hbok hall hb hst hci hlim hpy
       rw [Py.exec.forLoop] at hpy
       rw [C.exec.forLoop]
